@@ -180,7 +180,7 @@ def classify(ob, cex):
             return 'C04-F10'
         if '[' in c:
             return 'C04-F9'
-    if ob.fn == 'mx_dir_rule' and '  ' in c:
+    if ob.fn == 'mx_dir_rule' and ('  ' in c or c.startswith('.dir ')):
         return 'C04-F18'
     if ob.fn == 'mx_dir_rule' and "'" in c:
         return 'C04-F11'
